@@ -589,6 +589,8 @@ func generate(it *interp) {
 			genHistory(it, r, 1)
 		case x < 60:
 			genHistory(it, r, 2)
+		case x < 63:
+			genFeed(it, r)
 		case x < 80:
 			genAdv(it, r)
 		default:
